@@ -13,6 +13,7 @@ import (
 	"os"
 	"reflect"
 	"strings"
+	"sync"
 	"testing"
 	"time"
 
@@ -32,6 +33,7 @@ import (
 	"go.6river.tech/mmmbbb/filter"
 	"go.6river.tech/mmmbbb/grpc/pubsubpb"
 	"go.6river.tech/mmmbbb/internal/sqltypes"
+	"go.6river.tech/mmmbbb/logging"
 )
 
 type vScenario struct {
@@ -268,6 +270,56 @@ func optStr(x any) string {
 	return x.(string)
 }
 
+type vStreamStep struct {
+	req       *actions.MessageStreamRequest
+	afterSent int
+}
+
+// vStreamConn is a scripted actions.StreamConnection
+type vStreamConn struct {
+	mu     sync.Mutex
+	first  *actions.MessageStreamRequest
+	script []vStreamStep
+	next   int
+	sent   []map[string]any
+}
+
+func (c *vStreamConn) Close() error { return nil }
+
+func (c *vStreamConn) Receive(ctx context.Context) (*actions.MessageStreamRequest, error) {
+	c.mu.Lock()
+	if c.first != nil {
+		r := c.first
+		c.first = nil
+		c.mu.Unlock()
+		return r, nil
+	}
+	c.mu.Unlock()
+	deadline := time.Now().Add(1500 * time.Millisecond)
+	for {
+		c.mu.Lock()
+		if c.next < len(c.script) && (len(c.sent) >= c.script[c.next].afterSent || time.Now().After(deadline)) {
+			r := c.script[c.next].req
+			c.next++
+			c.mu.Unlock()
+			return r, nil
+		}
+		c.mu.Unlock()
+		select {
+		case <-ctx.Done():
+			return nil, ctx.Err()
+		case <-time.After(5 * time.Millisecond):
+		}
+	}
+}
+
+func (c *vStreamConn) Send(ctx context.Context, d *actions.SubscriptionMessageDelivery) error {
+	c.mu.Lock()
+	defer c.mu.Unlock()
+	c.sent = append(c.sent, map[string]any{"id": d.ID.String(), "message_id": d.MessageID.String(), "bytes": len(d.Payload)})
+	return nil
+}
+
 // runOp executes one operation; panics are caught and reported (that is what C16 looks for)
 func (v *vCtx) runOp(ctx context.Context, op map[string]any) (res map[string]any) {
 	res = map[string]any{"op": op["op"]}
@@ -442,6 +494,29 @@ func (v *vCtx) runOp(ctx context.Context, op map[string]any) (res map[string]any
 		if err := p.Go(cctx); err != nil {
 			res["err"] = err.Error()
 		}
+		return
+	case "stream":
+		// the real MessageStreamer.Go against a scripted connection: the opening flow-control request, then the scripted requests
+		// (each released once `after_sent` messages have been sent, or after 1.5 s), then silence until the time is up
+		id := uuid.MustParse(op["subscription_id"].(string))
+		fc := op["flow"].(map[string]any)
+		conn := &vStreamConn{first: &actions.MessageStreamRequest{FlowControl: &actions.FlowControl{MaxMessages: int(vInt(fc["max_messages"])), MaxBytes: int(vInt(fc["max_bytes"]))}}}
+		if rs, ok := op["requests"].([]any); ok {
+			for _, r := range rs {
+				rm := r.(map[string]any)
+				conn.script = append(conn.script, vStreamStep{req: &actions.MessageStreamRequest{Ack: v.vUUIDs(rm["ack"]), Nack: v.vUUIDs(rm["nack"])}, afterSent: int(vInt(rm["after_sent"]))})
+			}
+		}
+		cctx, cancel := context.WithTimeout(ctx, time.Duration(vInt(op["duration_ms"]))*time.Millisecond)
+		defer cancel()
+		ms := &actions.MessageStreamer{Client: v.client, Logger: logging.GetLogger("verif/stream"), SubscriptionID: &id, AutomaticNack: op["automatic_nack"] == true}
+		if err := ms.Go(cctx, conn); err != nil {
+			res["err"] = err.Error()
+		}
+		conn.mu.Lock()
+		res["sent"] = conn.sent
+		res["requests_delivered"] = conn.next
+		conn.mu.Unlock()
 		return
 	case "http_pusher_round":
 		// one round of the background http-pusher service on this goroutine (in the server it runs outside every interceptor:
